@@ -63,6 +63,8 @@ def run_c08(scn, dev, expect, mons):
     fresh = harness.run_execution(base, dev, expect=expect)
     with seams.paused():
         used_opt = harness.build_optimizer(base)
+        # one task OBJECT handed to the same optimizer twice (events flagged same_task)
+        shared_task = harness.build_task(base) if any(e.get('same_task') for e in hist) else None
     probe_params = registry.base_params(base['opt'], **base.get('over', {}))
     for k, ev in enumerate(hist):
         with seams.paused():
@@ -72,11 +74,15 @@ def run_c08(scn, dev, expect, mons):
         hs = {'opt': base['opt'], 'over': ev.get('over') or base.get('over', {}), 'proto': ev['proto'],
               'minmax': ev.get('minmax', 'min'), 'seed': 1000 + k, 'weights': ev.get('weights'),
               'tcls': ev.get('tcls', 'A'), 'lenient': True}
-        harness.run_execution(hs, {}, opt=used_opt)
+        if ev.get('mode'):
+            hs['mode'], hs['workers'] = ev['mode'], ev.get('workers', 2)
+        if ev.get('same_task'):
+            hs.update(proto=base['proto'], minmax=base.get('minmax', 'min'), task_seed=base.get('task_seed'))
+        harness.run_execution(hs, {}, opt=used_opt, task=shared_task if ev.get('same_task') else None)
         with seams.paused():
             if ev.get('over') is not None:
                 used_opt.set_config_parameters(probe_params)
-    used = harness.run_execution(dict(base, lenient=True), dev, opt=used_opt)
+    used = harness.run_execution(dict(base, lenient=True), dev, opt=used_opt, task=shared_task)
     o = scn['opt']
     finds = []
     tag = '+'.join(e['tag'] for e in hist) or 'none'
